@@ -41,6 +41,7 @@ class Gen:
         self.force_scope = None
         self.focus_acc = None
         self.bare = 0.0  # probability that a setup/launch statement is a bare launch on a visible state instead
+        self.ifinput = 0.0  # probability that one field of a setup is computed by an scf.if from a local and an outer computed value
 
     def loop_bounds(self):
         """(lb, ub, step) SSA names: function arguments (run-time trip counts) or index constants, including empty
@@ -72,6 +73,21 @@ class Gen:
                     keep[f] = chosen[f]
                 chosen = keep
             hist_c.append(dict(chosen))
+        pre_lines = []
+        if self.ifinput and self.r.random() < self.ifinput:
+            # the conditional is itself an input of the setup: its branch computes from a region-local value and from a value
+            # computed just in front of it (either operand order), the other branch yields an existing value
+            x, k, y, rr = self.fresh(), self.fresh(), self.fresh(), self.fresh("r")
+            pre_lines.append(f"{ind}{x} = arith.{self.r.choice(['muli', 'addi'])} {self.r.choice(vals)}, {self.r.choice(vals)} : i32")
+            c = self.r.choice(["%c0", "%c1"])
+            a, b = (k, x) if self.r.random() < 0.6 else (x, k)
+            then = [f"{ind}  {k} = arith.{self.r.choice(['addi', 'muli'])} {self.r.choice(vals)}, {self.r.choice(vals)} : i32",
+                    f"{ind}  {y} = arith.{self.r.choice(['addi', 'subi'])} {a}, {b} : i32", f"{ind}  scf.yield {y} : i32"]
+            other = [f"{ind}  scf.yield {self.r.choice(vals)} : i32"]
+            if self.r.random() < 0.5:
+                then, other = other, then
+            pre_lines += [f"{ind}{rr} = scf.if {c} -> (i32) {{"] + then + [f"{ind}}} else {{"] + other + [f"{ind}}}"]
+            chosen[self.r.choice(fs)] = rr
         params = ", ".join(f'"{f}" = {chosen[f]} : i32' for f in fs)
         frm = ""
         hist = cur.setdefault("_hist_" + acc, [])
@@ -79,7 +95,7 @@ class Gen:
             # pre-existing threading: mostly the real predecessor, sometimes a STALE link to an older state of the accelerator
             # (the tracer has to re-link every setup to the setup that really precedes it)
             frm = f" from {self.r.choice(hist) if self.r.random() < 0.4 else hist[-1]}"
-        out = [f'{ind}{s} = accfg.setup "{acc}"{frm} to ({params}) : {st_ty(acc)}']
+        out = pre_lines + [f'{ind}{s} = accfg.setup "{acc}"{frm} to ({params}) : {st_ty(acc)}']
         cur[acc] = s
         hist.append(s)
         cur.setdefault("_vis_" + acc, []).append(s)
